@@ -39,17 +39,23 @@ def date : Bytes := ascii "Sun, 06 Nov 1994 08:49:37 GMT"      -- the pinned clo
 
 def plain (status : Nat) : Bytes := render cfg (build cfg status date [])
 
+/-- the Scrub fang writes `Connection: v` on the response (hit or 404) of a request that carries `X-Res-Conn: v` -/
+def resConn (p : Parsed) : List ROp :=
+  match getHeader p (ascii "X-Res-Conn") with
+  | some v => [.h (.insert (keyOf "Connection") v)]
+  | none => []
+
 /-- `router.handle` + `send` for the echo application.  The residue of an earlier request is an argument so that the
 theorems can say it is never looked at with anything but `none`; the application itself has no way to reach it. -/
 def respond (_residue : Option Parsed) (p : Parsed) : Bytes :=
   let segs := Ohkami.segments p.path      -- `p.path` is already normalised (one trailing slash stripped)
   let routed := segs.length ≤ 2 && segs.all (· ≠ [])
   let known := ["GET", "PUT", "POST", "PATCH", "DELETE", "HEAD"].contains p.method
-  if !(routed && known) then plain 404 else
+  if !(routed && known) then render cfg (build cfg 404 date (resConn p)) else
   let params := segs.map fun s => utf8Lossy (Percent.decode s)
   let ctx := getHeader p (ascii "X-Ctx")
   let body := echoBody p params ctx
-  let r := build cfg 200 date [.payload (ascii "text/plain; charset=UTF-8") body]
+  let r := build cfg 200 date ([.payload (ascii "text/plain; charset=UTF-8") body] ++ resConn p)
   if p.method == "HEAD" then render cfg { r with body := none } else render cfg r
 
 def app : Session.App := ⟨respond, plain⟩
